@@ -183,4 +183,20 @@ Proof.
     eapply rs_backjump; try exact tc_nonneg; eassumption.
 Qed.
 
+(* results delivered over a Forejump frame [pcF; zlen C] (possibly with captures C' made before the
+   cut): when they are exhausted the frame undoes C' and fails into the base *)
+Lemma cc_over_forejump b pcF T Sk C C' M M' s res :
+  code_at p pcF = Some Forejump -> track_ok T -> unwind C' M' = Some M ->
+  leadsg b (pcF :: zlen C :: T) Sk Sk (C' ++ C) M' s res ->
+  leadsg b T Sk Sk C M s res.
+Proof.
+  intros HF Hk Hu G. pose proof (code_at_nonneg p _ _ HF) as HpF.
+  rewrite <- (app_nil_r res).
+  eapply leadsg_app with (T1 := [pcF; zlen C]) (Cx := C') (Sf1 := Sk) (M1 := M'); [exact G|exact Hu|].
+  intros np T' t HT. cbn [app] in HT. injection HT as <- <-. rewrite bkr_pos by lia.
+  destruct Hk as (np' & T3 & -> & w3 & Hw3).
+  eapply leadsg_fail; [reflexivity|].
+  eapply rs_forejump_back; try exact tc_nonneg; eassumption.
+Qed.
+
 End CC.
